@@ -5,6 +5,7 @@ import (
 	"reflect"
 	"regexp"
 	"strings"
+	"time"
 
 	"github.com/expr-lang/expr"
 	"github.com/go-kid/ioc/app"
@@ -30,6 +31,7 @@ func init() {
 		Parts: []Part{
 			{Name: "expressions", Run: c18Expr, QuickS: 60, ThoroughS: 600},
 			{Name: "validation", Run: c18Valid, Workers: 4, QuickS: 60, ThoroughS: 300},
+			{Name: "durations", Run: c18Durations, Workers: 4, QuickS: 30, ThoroughS: 60},
 		},
 	})
 }
@@ -432,6 +434,82 @@ func c18Valid(c *core.Ctx) {
 		}
 		if c.S.Programs%60 == 1 {
 			c.Sample(map[string]any{"case": cs, "bound": fmt.Sprintf("%#v", bound), "validator_rejects": reject, "start_failed": o.Err != nil})
+		}
+	})
+}
+
+// ---- expression results that feed a unit-carrying text: durations
+
+type c18DurCase struct {
+	Expr string `json:"expr"`
+	Unit string `json:"unit"`
+	Cfg  int    `json:"cfg"`
+	Ptr  bool   `json:"pointer_field,omitempty"`
+}
+
+func c18Durations(c *core.Ctx) {
+	gen := func(yield func(c18DurCase) bool) {
+		exprs := []string{"${n1}", "${n1}+${n2}", "${n1}*1.5", "${n2}*0.5", "0.5", "0.25*${n1}", "1.5+${n2}", "${n1}*1500", "(${n1}+${n2})*0.1", "${n${k}}*2.5", "2-0.5"}
+		for _, e := range exprs {
+			for _, u := range []string{"s", "ms", "h", "m"} {
+				for cfg := range c18Cfgs {
+					for _, ptr := range []bool{false, true} {
+						if !yield(c18DurCase{e, u, cfg, ptr}) {
+							return
+						}
+					}
+				}
+			}
+		}
+	}
+	Cases(c, gen, func(c *core.Ctx, cs c18DurCase) {
+		cfg := c18Cfgs[cs.Cfg]
+		doc := fmt.Sprintf("n1: %s\nn2: %s\ns: %s\nk: %s\n", cfg["n1"], cfg["n2"], cfg["s"], cfg["k"])
+		ft := reflect.TypeOf(time.Duration(0))
+		if cs.Ptr {
+			ft = reflect.PointerTo(ft)
+		}
+		st := reflect.StructOf([]reflect.StructField{{Name: "X", Type: ft, Tag: reflect.StructTag(fmt.Sprintf(`value:"#{%s}%s"`, cs.Expr, cs.Unit))}})
+		h := reflect.New(st)
+		o := scen.Start(scen.StartSpec{Ch: envx.Fixed("", nil), Comps: []any{h.Interface()}, Opts: []app.SettingOption{app.SetConfigLoader(loader.NewRawLoader([]byte(doc)))}})
+		c.S.Evaluations++
+		c.S.Programs++
+		c.S.States++
+		c.S.Transitions++
+		c.S.Nontrivial++
+		key := "C18/duration/" + core.Hash(cs)
+		desc := fmt.Sprintf("value:\"#{%s}%s\" on a duration field (pointer %v) with n1=%s n2=%s k=%s", cs.Expr, cs.Unit, cs.Ptr, cfg["n1"], cfg["n2"], cfg["k"])
+		res, rerr := expr.Eval(c18Subst(cs.Expr, cfg), nil)
+		var want time.Duration
+		var werr error
+		if rerr == nil {
+			want, werr = time.ParseDuration(fmt.Sprint(res) + cs.Unit)
+		}
+		var got time.Duration
+		if v := h.Elem().Field(0); cs.Ptr {
+			if !v.IsNil() {
+				got = v.Elem().Interface().(time.Duration)
+			}
+		} else {
+			got = v.Interface().(time.Duration)
+		}
+		switch {
+		case o.Panic != "" || o.Abort != "":
+			c.Outcome("duration/panic")
+			c.Report(key, "panic", desc+": "+o.Panic+o.Abort, cs)
+		case rerr != nil || werr != nil:
+			c.Outcome("duration/outside-domain") // the result's text form is not a duration: not decided here
+		case o.Err != nil:
+			c.Outcome("duration/spurious-error")
+			c.Report(key, "spurious-error", fmt.Sprintf("%s: the expression gives %v, i.e. %v, but start-up failed: %s", desc, res, want, scen.FirstLine(o.Err)), cs)
+		case got != want:
+			c.Outcome("duration/mismatch")
+			c.Report(key, "wrong-result", fmt.Sprintf("%s: field holds %v; the expression gives %v, i.e. %v", desc, got, res, want), cs)
+		default:
+			c.Outcome("duration/as-direct")
+		}
+		if c.S.Programs%60 == 1 {
+			c.Sample(map[string]any{"case": cs, "bound": got.String()})
 		}
 	})
 }
